@@ -1,11 +1,17 @@
-// C04 "one call from a cancelled pre-state": for every scheduling entry point of TaskSet (VF_SET=0)
-// / ConcurrentTaskSet (VF_SET=1, both TaskCost routes) on a real ThreadPool of VF_POOL_N threads
-// (virtual workers), with the set already cancelled (cancel(), or a ParentCascadeCancel::kOn parent
-// that was cancelled before / after the child was constructed) and an arbitrary load pre-state
-// (caller is/is not a pool thread, inline depth, pool work pending, in-flight tasks of the set):
-// the task body never runs - not during the call (queue path and every inline fallback), not when
-// the virtual worker / wait() / tryWait() / the destructor processes what was queued - and wait()
-// reports the cancellation (returns true; tryWait returns false), outstanding count back to 0.
+// C04 "one call from a cancelled pre-state": one scheduling entry point (VF_OP) of TaskSet
+// (VF_SET=0) / ConcurrentTaskSet (VF_SET=1, TaskCost VF_COST: 0 kLightweight, 1 kHeavy = the
+// private schedulePlaced / scheduleBulkImplPlaced route) on a real ThreadPool of VF_POOL_N threads
+// (virtual workers), with the set already cancelled (VF_HOW: 0 cancel(); 1 a ParentCascadeCancel::kOn
+// parent that was cancelled before the child was constructed; 2 ... after) and an arbitrary load
+// pre-state (caller is / is not a pool thread, inline depth, pool work pending, in-flight tasks of
+// the set, load multiplier): the task body never runs - not during the call (queue path and every
+// inline fallback), not when wait() / tryWait() / the virtual worker / the destructor processes
+// what was queued - and wait() reports the cancellation (returns true; tryWait returns false),
+// outstanding count back to 0.
+// VF_OP: 0 schedule(f) (ConcurrentTaskSet: symbolic skipRecheck + poolRecursiveLoadFactor),
+//        1 schedule(f, ForceQueuingTag), 2 scheduleBulk(n, gen) n in 1..VF_BULK_MAX,
+//        3 scheduleBulk(n, gen, ForceQueuingTag).
+// VF_FIN: 0 wait() then destructor; 1 tryWait(k) then destructor; 2 virtual-worker steps then wait().
 #include "ts_kit.h"
 
 #if VF_SET == 0
@@ -15,6 +21,22 @@ using Set = dispenso::ConcurrentTaskSet;
 #endif
 using dispenso::ParentCascadeCancel;
 
+#ifndef VF_HOW
+#define VF_HOW 0
+#endif
+#ifndef VF_OP
+#define VF_OP 0
+#endif
+#ifndef VF_FIN
+#define VF_FIN 0
+#endif
+#ifndef VF_COST
+#define VF_COST 1
+#endif
+#ifndef VF_BULK_MAX
+#define VF_BULK_MAX 3
+#endif
+
 static int g_ran;
 
 struct Gen {
@@ -23,106 +45,102 @@ struct Gen {
   }
 };
 
-#ifndef VF_HOW
-#define VF_HOW 0
+VF_NOINLINE static void callUnderTest(Set& ts) {
+#if VF_OP == 0
+#if VF_SET == 0
+  ts.schedule([]() { g_ran++; });
+#else
+  bool skipRecheck = vf_nondet_bool();
+  uint32_t fsel = vf_range_u32(0, 2);
+  float factor = fsel == 0 ? 1.0f : (fsel == 1 ? dispenso::kDefaultPoolRecursiveLoadFactor : 3.0f);
+  ts.schedule([]() { g_ran++; }, skipRecheck, factor);
 #endif
-#ifndef VF_OPS_LO
-#define VF_OPS_LO 0
+#elif VF_OP == 1
+  ts.schedule([]() { g_ran++; }, dispenso::ForceQueuingTag());
+#else
+  // bulk counts are case-split so that each call has a concrete count (lets the symbolic executor
+  // prune the ring paths that the count excludes)
+#if VF_OP == 2
+#define BULK(n) ts.scheduleBulk(n, Gen())
+#else
+#define BULK(n) ts.scheduleBulk(n, Gen(), dispenso::ForceQueuingTag())
 #endif
-#ifndef VF_OPS_HI
-#define VF_OPS_HI 3
+  uint32_t n = vf_range_u32(1, VF_BULK_MAX);
+  if (n == 1) {
+    BULK(1);
+  } else if (n == 2) {
+    BULK(2);
+  } else {
+    BULK(3);
+  }
+#endif
+}
+
+#if VF_SET == 0
+#define SET_ARGS(cascade) pool, cascade, mult
+#else
+#define SET_ARGS(cascade) \
+  pool, cascade, mult, (VF_COST ? dispenso::TaskCost::kHeavy : dispenso::TaskCost::kLightweight)
 #endif
 
-VF_NOINLINE static void callUnderTest(Set& ts, uint32_t op) {
-  switch (op) {
-    case 0:
-#if VF_SET == 0
-      ts.schedule([]() { g_ran++; });
-#else
-    {
-      bool skipRecheck = vf_nondet_bool();
-      uint32_t fsel = vf_range_u32(0, 2);
-      float factor = fsel == 0 ? 1.0f : (fsel == 1 ? dispenso::kDefaultPoolRecursiveLoadFactor : 3.0f);
-      ts.schedule([]() { g_ran++; }, skipRecheck, factor);
-    }
+VF_NOINLINE static void scenario(dispenso::ThreadPool& pool, Set& ts, tskit::CallerCtx& ctx) {
+  vf_check(ts.canceled(), "canceled() is true after cancel() / cancel() of the cascading parent");
+
+  // arbitrary load pre-state
+  ssize_t inflight = (ssize_t)vf_range_u32(0, 64);  // tasks of this set running elsewhere
+  ts.outstandingTaskCount_.fetch_add(inflight, std::memory_order_relaxed);
+  ctx.makeSymbolic(pool);
+
+  callUnderTest(ts);
+  vf_check(g_ran == 0, "task body ran inside the scheduling call on a cancelled set");
+
+  ctx.restore(pool);
+  ts.outstandingTaskCount_.fetch_sub(inflight, std::memory_order_relaxed);
+
+#if VF_FIN == 2
+  tskit::workerRun(pool, 2);
+  vf_check(g_ran == 0, "virtual worker ran the body of a task scheduled to a cancelled set");
 #endif
-      break;
-    case 1:
-      ts.schedule([]() { g_ran++; }, dispenso::ForceQueuingTag());
-      break;
-    case 2:
-      ts.scheduleBulk((size_t)vf_range_u32(1, 3), Gen());
-      break;
-    default:
-      ts.scheduleBulk((size_t)vf_range_u32(1, 3), Gen(), dispenso::ForceQueuingTag());
-      break;
-  }
+#if VF_FIN == 1
+  bool done = ts.tryWait((size_t)vf_range_u32(0, 4));
+  vf_check(!done, "tryWait() on a cancelled set returns false");
+#else
+  bool c = ts.wait();
+  vf_check(c, "wait() on a cancelled set returns true");
+  vf_check(ts.outstandingTaskCount_.load() == 0, "outstanding count is 0 after wait()");
+#endif
+  vf_check(g_ran == 0, "wait()/tryWait() ran the body of a task scheduled to a cancelled set");
 }
 
 extern "C" void vf_main() {
   dispenso::ThreadPool pool(VF_POOL_N);
   tskit::CallerCtx ctx(pool);
   g_ran = 0;
-
   ssize_t mult = (ssize_t)vf_range_u32(1, 4);
-  // how the set got cancelled (compile-time: keeps the parent/child list structure concrete):
-  // 0 cancel(); 1 cascading parent cancelled before the child was constructed; 2 after
-  const uint32_t how = VF_HOW;
-#if VF_SET == 0
-  Set parent(pool, ParentCascadeCancel::kOff, mult);
+#if VF_HOW == 0
+  {
+    Set ts(SET_ARGS(ParentCascadeCancel::kOff));
+    ts.cancel();
+    scenario(pool, ts, ctx);
+  }
 #else
-  dispenso::TaskCost cost = vf_nondet_bool() ? dispenso::TaskCost::kHeavy : dispenso::TaskCost::kLightweight;
-  Set parent(pool, ParentCascadeCancel::kOff, mult, cost);
-#endif
-  if (how != 0) {
+  {
+    Set parent(SET_ARGS(ParentCascadeCancel::kOff));
     // the child is constructed "inside a task of parent" (what packageTask's wrapper establishes)
     dispenso::detail::pushThreadTaskSet(&parent);
-  }
-  if (how == 1) {
+#if VF_HOW == 1
     parent.cancel();
-  }
-  {
-#if VF_SET == 0
-    Set ts(pool, how != 0 ? ParentCascadeCancel::kOn : ParentCascadeCancel::kOff, mult);
-#else
-    Set ts(pool, how != 0 ? ParentCascadeCancel::kOn : ParentCascadeCancel::kOff, mult, cost);
 #endif
-    if (how != 0) {
+    {
+      Set ts(SET_ARGS(ParentCascadeCancel::kOn));
       dispenso::detail::popThreadTaskSet();
-    }
-    if (how == 0) {
-      ts.cancel();
-    }
-    if (how == 2) {
+#if VF_HOW == 2
       parent.cancel();
+#endif
+      scenario(pool, ts, ctx);
     }
-    vf_check(ts.canceled(), "canceled() is true after cancel() / cancel() of the cascading parent");
-
-    // arbitrary load pre-state
-    ssize_t inflight = (ssize_t)vf_range_u32(0, 64);  // tasks of this set running elsewhere
-    ts.outstandingTaskCount_.fetch_add(inflight, std::memory_order_relaxed);
-    ctx.makeSymbolic(pool);
-
-    uint32_t op = vf_range_u32(VF_OPS_LO, VF_OPS_HI);
-    callUnderTest(ts, op);
-    vf_check(g_ran == 0, "task body ran inside the scheduling call on a cancelled set");
-
-    ctx.restore(pool);
-    ts.outstandingTaskCount_.fetch_sub(inflight, std::memory_order_relaxed);
-
-    tskit::workerRun(pool, 2);
-    vf_check(g_ran == 0, "virtual worker ran the body of a task scheduled to a cancelled set");
-
-    uint32_t fin = vf_range_u32(0, 2);
-    if (fin == 0) {
-      bool c = ts.wait();
-      vf_check(c, "wait() on a cancelled set returns true");
-      vf_check(ts.outstandingTaskCount_.load() == 0, "outstanding count is 0 after wait()");
-    } else if (fin == 1) {
-      bool done = ts.tryWait((size_t)vf_range_u32(0, 4));
-      vf_check(!done, "tryWait() on a cancelled set returns false");
-    }
-    vf_check(g_ran == 0, "wait()/tryWait() ran the body of a task scheduled to a cancelled set");
   }
+#endif
   vf_check(g_ran == 0, "the destructor ran the body of a task scheduled to a cancelled set");
+  vf_reach("end of cancelled scenario");
 }
